@@ -24,8 +24,8 @@ def migrationUpAlter (g : Globals) (c : Column) (tb after : String) : List Stmt 
   match c.action with
   | .none => []
   | .add =>
-    -- `ident < 0`: AFTER template when `after != ""`, else the FIRST template (also under ignoreFieldOrder, F12)
-    [.addColumn tb (c.colDef false) (if after != "" then .after after else .first)]
+    -- `ident < 0`: no positional clause under ignoreFieldOrder; else AFTER when `after != ""`, else FIRST
+    [.addColumn tb (c.colDef false) (if g.ignoreOrder then .none else if after != "" then .after after else .first)]
   | .remove => if g.dialect == .sqlite then [] else [.dropColumn tb c.name]
   | .modify =>
     [.modifyColumn tb { c.colDef false with stripPk := c.cur.isPk && c.prev.isPk }]
@@ -77,7 +77,11 @@ def migrationDown (g : Globals) (i : Index) (tb : String) : M (List Stmt) :=
   | .none => pure []
   | .add => migrationUp g { i with action := .remove } tb
   | .remove => migrationUp g { i with action := .add } tb
-  | .modify => migrationUp g i tb
+  | .modify =>
+    match i.prev with
+    | some p => migrationUp g { i with name := p.name, typ := p.typ, indexType := p.indexType, isPk := p.isPk,
+                                       cols := p.cols, prev := none, action := .modify } tb
+    | none => migrationUp g i tb
   | .rename => migrationUp g { i with name := i.oldName, oldName := i.name } tb
   | .revert => pure []
 
@@ -161,16 +165,16 @@ def migrationColumnUp (g : Globals) (t : Table) : M (List Stmt × List String) :
   | .remove => pure ([.dropTable t.name], [])
   | _ => pure ([], [])
 
-/-- drop suppression test of `MigrationIndexUp`: `dropCols[idx.Columns[0]]` (index on an empty slice panics) -/
-def idxSuppressed (i : Index) (dropCols : List String) : M Bool := do
-  let c0 ← getIdx "MigrationIndexUp: Indexes[i].Columns[0]" i.cols 0
-  pure (dropCols.contains c0)
+/-- drop suppression test of `MigrationIndexUp` (`allDropped`): the index has columns and all of them are dropped -/
+def idxSuppressed (i : Index) (dropCols : List String) : Bool :=
+  !i.cols.isEmpty && i.cols.all dropCols.contains
 
 def walkIdx (g : Globals) (tb : String) (up : Bool) (dropCols : List String) : List Index → M (List Stmt)
   | [] => pure []
   | i :: rest => do
-    let sup ← idxSuppressed i dropCols
-    let ss ← (if i.action != .none && (i.action != .remove || !sup) then
+    let sup := idxSuppressed i dropCols
+    let dropped := if up then Action.remove else Action.add
+    let ss ← (if i.action != .none && (i.action != dropped || !sup) then
                 (if up then i.migrationUp g tb else i.migrationDown g tb) else pure [] : M (List Stmt))
     let rs ← walkIdx g tb up dropCols rest
     pure (ss ++ rs)
@@ -190,7 +194,7 @@ def migrationIndexUp (g : Globals) (t : Table) (dropCols : List String) : M (Lis
 
 def walkFk (tb : String) (up : Bool) (dropCols : List String) (fks : List ForeignKey) : List Stmt :=
   fks.flatMap (fun f =>
-    if f.action != .none && (f.action != .remove || !dropCols.contains f.column) then
+    if f.action != .none && (f.action != (if up then Action.remove else Action.add) || !dropCols.contains f.column) then
       (if up then f.migrationUp tb else f.migrationDown tb) else [])
 
 def migrationForeignKeyUp (t : Table) (dropCols : List String) : List Stmt :=
